@@ -403,11 +403,72 @@ def gen_c07():
         term, ty = tr.blk(body)
         out.append("(* FormatLines::should_report_error; eou / eol = config.error_on_unformatted() / error_on_line_overflow(), has_strlit = self.current_line_contains_string_literal *)\n"
                    "Definition g_should_report_error (eou eol has_strlit : bool) (char_kind : kind) (error_kind : error_kind) : bool :=\n  %s.\n" % term)
+        # ---- the scanner's state and its two step functions (char, new_line) with push_err
+        want_fields = ["name", "skipped_range", "last_was_space", "line_len", "cur_line", "newline_count", "errors", "line_buffer",
+                       "current_line_contains_string_literal", "format_line", "config"]
+        got = [f for f, _ in R.find_struct(ftoks, "FormatLines")]
+        if got != want_fields:
+            raise R.Unsupported("struct FormatLines changed: %r" % (got,))
+        got = [f for f, _ in R.find_struct(ftoks, "FormattingError")]
+        if got != ["line", "kind", "is_comment", "is_string", "line_buffer"]:
+            raise R.Unsupported("struct FormattingError changed: %r" % (got,))
+        recs = {"FormatLines": ("fl", "MkFL", [("last_was_space", "last_was_space", "bool"), ("line_len", "line_len", "N"), ("cur_line", "cur_line", "N"),
+                                               ("newline_count", "newline_count", "N"), ("errors", "errors", "list ferr"),
+                                               ("current_line_contains_string_literal", "has_strlit", "bool"), ("format_line", "format_line", "bool")]),
+                "FormattingError": ("ferr", "MkErr", [("line", "fe_line", "N"), ("kind", "fe_kind", "ErrorKind"), ("is_comment", "fe_is_comment", "bool"), ("is_string", "fe_is_string", "bool")])}
+        c3 = R.Ctx(recs, getters={"max_width": ("mw", "N"), "tab_spaces": ("ts", "N")})
+        c3.enums = dict(ctx.enums)
+        c3.variants = dict(ctx.variants)
+        c3.funcs = dict(ctx.funcs)
+        c3.chars = {"'\\t'": "TAB"}
+        c3.ctors = {"LineOverflow": ("LineOverflow", "ErrorKind")}
+        c3.values = {"TrailingWhitespace": ("TrailingWhitespace", "ErrorKind")}
+        c3.ignore_stmts = {"self.line_buffer.push(c)", "self.line_buffer.clear()"}
+        c3.opaque = {"c.is_whitespace()": ("(is_whitespace c)", "bool"),
+                     "self.is_skipped_line()": ("(is_skipped_line skipped self)", "bool"),
+                     "self.config.file_lines().contains_line(self.name, self.cur_line)": ("(sel (cur_line self))", "bool"),
+                     "self.should_report_error(kind, ErrorKind::TrailingWhitespace)": ("(g_should_report_error eou eol (has_strlit self) kind TrailingWhitespace)", "bool"),
+                     "self.should_report_error(kind, error_kind)": ("(g_should_report_error eou eol (has_strlit self) kind error_kind)", "bool")}
+        t, _ = R.translate_fn(c3, ctoks, "FullCodeCharKind", "is_string", "g_kind_is_string", self_ty="FullCodeCharKind")
+        out.append(t)
+        impl = "< 'a > FormatLines < 'a >"
+        t, _ = R.translate_fn(c3, ftoks, impl, "push_err", "g_push_err", self_ty="FormatLines", param_types={"kind": "ErrorKind"})
+        out.append(t)
+        t, _ = R.translate_fn(c3, ftoks, impl, "char", "g_char", self_ty="FormatLines", param_types={"c": "usize", "kind": "FullCodeCharKind"}, extra_params=[("ts", "N")])
+        out.append(t)
+        t, _ = R.translate_fn(c3, ftoks, impl, "new_line", "g_new_line", self_ty="FormatLines", param_types={"kind": "FullCodeCharKind"},
+                              extra_params=[("eou", "bool"), ("eol", "bool"), ("mw", "N"), ("skipped", "list (N * N)"), ("sel", "N -> bool")])
+        out.append(t)
+        # is_skipped_line and iterate are pinned token for token (closures over tuples / a for loop are outside the translated subset)
+        PINS = {"is_skipped_line": "fn is_skipped_line ( & self ) -> bool { self . skipped_range . iter ( ) . any ( | & ( lo , hi ) | lo <= self . cur_line && self . cur_line <= hi ) }",
+                "iterate": "fn iterate ( & mut self , text : & mut String ) { for ( kind , c ) in CharClasses :: new ( text . chars ( ) ) { if c == '\\r' { continue ; } if c == '\\n' { self . new_line ( kind ) ; } else { self . char ( c , kind ) ; } } }"}
+        lo, hi = R.find_impl(ftoks, impl)
+        for fn, want in PINS.items():
+            j = R.find_fn(ftoks, lo, hi, fn)
+            d, k2, seen = 0, j, False
+            while True:
+                tk = ftoks[k2][1]
+                d += tk == "{"
+                d -= tk == "}"
+                seen = seen or tk == "{"
+                k2 += 1
+                if seen and d == 0:
+                    break
+            have = " ".join(tk for _, tk in ftoks[j:k2])
+            if have != want:
+                raise R.Unsupported("FormatLines::%s changed: %s" % (fn, have))
+            out.append("(* FormatLines::%s is, token for token: %s *)" % (fn, want.replace("*)", "* )")))
         U = ["g_kind_is_comment", "g_ek_is_comment", "g_should_report_error", "should_report_error", "is_comment", "ek_is_comment"]
         out.append(_theorem("tie_kind_is_comment", "forall k, g_kind_is_comment k = is_comment k", U, "intros k. destruct k; reflexivity."))
         out.append(_theorem("tie_ek_is_comment", "forall e, g_ek_is_comment e = ek_is_comment e", U, "intros e. destruct e; reflexivity."))
         out.append(_theorem("tie_should_report_error", "forall cfg st k e, g_should_report_error (error_on_unformatted cfg) (error_on_line_overflow cfg) (has_strlit st) k e = should_report_error cfg st k e", U,
                             "intros cfg st k e. unfold g_should_report_error, should_report_error, g_kind_is_comment, g_ek_is_comment, is_comment, ek_is_comment. destruct k, e; reflexivity."))
+        out.append(_theorem("tie_kind_is_string", "forall k, g_kind_is_string k = is_string k", U, "intros k. destruct k; reflexivity."))
+        out.append(_theorem("tie_push_err", "forall st ek c s, g_push_err st ek c s = push_err st ek c s", U, "intros. reflexivity."))
+        out.append(_theorem("tie_char", "forall cfg st c k, g_char (tab_spaces cfg) st c k = char_step cfg st c k", U,
+                            "intros cfg st c k. unfold g_char, char_step. rewrite tie_kind_is_string. destruct st; cbn. destruct (is_string k); reflexivity."))
+
+
         _write(rel, "\n".join(out))
     except (R.Unsupported, AssertionError, KeyError, IndexError, ValueError) as e:
         _failed(rel, "report_ops", e)
